@@ -43,6 +43,10 @@ def map_tid_to_range(event: TraceEvent, context: AbstractContext) -> list[TraceE
 
     # check if the tid is the tid_original list
     if tid not in context.tid_original:
+        if len(context.tid_original) == 0 and "TS1" in event["args"]:
+            # the first number of the range is also the lane the host slices of a rank are merged onto
+            # (cpu_stream_tid): a device stream that happens to show up first must not take it
+            context.tid_original.append(None)
         # append tid to the tid_orginal list
         context.tid_original.append(tid)
         if len(context.tid_original) > len(context.tid_remap):
